@@ -16,7 +16,8 @@ P = {
                  "C08_off_rejects_encoded_slash", "C08_off_answers_precondition",
                  "C08_F2_off_refuted", "C08_F4_off_refuted", "C08_capture_decoding",
                  "C08_nodecode_keeps", "C08_on_decodes", "C08_nodecode_on_nonvacuous",
-                 "C08_F2_nodecode_refuted", "C08_F5_nodecode_refuted"],
+                 "C08_F2_nodecode_refuted", "C08_F5_nodecode_refuted", "C08_reenc_checked_by_evaluator",
+                 "C08_off_captures_decoded", "C08_malformed_rejected"],
     "streams": [{
         "name": "requests", "pkg": "./internal/rules", "test": "TestVerifC08",
         "overlay": {"internal/rules/zz_verif_c08_test.go": "c08/c08_test.go"},
